@@ -38,7 +38,7 @@ impl K8 {
             K8::Scalar => "DiscreteMatrix::score_position".into(),
         }
     }
-    fn all_dna() -> Vec<K8> {
+    pub fn all_dna() -> Vec<K8> {
         let mut v = vec![K8::GenU32, K8::GenU16, K8::SseU16, K8::SseU32, K8::AvxU32];
         for a in cfgs::FORCED {
             v.push(K8::Arm(a));
@@ -108,7 +108,7 @@ pub struct Case {
 }
 
 impl Case {
-    fn json(&self, k: Option<K8>) -> Value {
+    pub fn json(&self, k: Option<K8>) -> Value {
         let letters = if self.alpha == "dna" { model::DNA_LETTERS } else { model::PROTEIN_LETTERS };
         json!({
             "alphabet": self.alpha,
@@ -130,7 +130,7 @@ impl Case {
 }
 
 /// Check one case under the given kernels. Returns (evaluations, nontrivial, failures).
-fn check_case(case: &Case, kernels: &[K8]) -> (u64, bool, Vec<(String, String, Option<K8>)>) {
+pub fn check_case(case: &Case, kernels: &[K8]) -> (u64, bool, Vec<(String, String, Option<K8>)>) {
     let mut fails = Vec::new();
     let m = case.matrix.len();
     let l = case.seq.len();
@@ -248,7 +248,7 @@ fn wildcard_value(kind: usize, row: &[f32]) -> f32 {
     }
 }
 
-fn wide_matrix(m: usize, flavour: usize) -> Vec<Vec<f32>> {
+pub fn wide_matrix(m: usize, flavour: usize) -> Vec<Vec<f32>> {
     // cells chosen so that the per-row maxima are not multiples of the byte step:
     // the sum of rounded-up cells exceeds 255 by up to M-1
     (0..m)
@@ -263,7 +263,7 @@ fn wide_matrix(m: usize, flavour: usize) -> Vec<Vec<f32>> {
         .collect()
 }
 
-fn wide_sequence(matrix: &[Vec<f32>]) -> Vec<u8> {
+pub fn wide_sequence(matrix: &[Vec<f32>]) -> Vec<u8> {
     let m = matrix.len();
     let best: Vec<u8> = matrix
         .iter()
